@@ -350,7 +350,8 @@ func c13ValueRepl(quoted bool) []string {
 	if quoted {
 		return []string{`""`, `","`, `"x,"`, `",x"`, `"a,,b"`, `" "`, `" avc1.42c028"`, `"`, `x`}
 	}
-	return []string{"", "0", "-1", "1", "99999999999999999999", "1.5", "1e9", "NaN", "x", "0x10", "YES", `"1"`}
+	return []string{"", "0", "-1", "1", "99999999999999999999", "1.5", "1e9", "NaN", "x", "0x10", "YES", `"1"`,
+		"1000@18446744073709551000", "18446744073709551615@1", "1@18446744073709551615"} // byte ranges whose end wraps around 2^64
 }
 
 func (b *c13Base) names() []string {
